@@ -79,6 +79,19 @@ impl TinyLFU {
     }
 }
 
+/// Read-only accessors used by the model-checking harness in /verif (never compiled without `--cfg cached_verif`).
+#[cfg(cached_verif)]
+impl TinyLFU {
+    pub(crate) fn verif_total_increments(&self) -> u64 { self.total_increments }
+    pub(crate) fn verif_frequency_counter(&self) -> &FrequencyCounter { &self.key_access_frequency }
+    pub(crate) fn verif_door_keeper_has(&self, key_hash: KeyHash) -> bool { self.door_keeper.has(&key_hash) }
+    pub(crate) fn verif_with_seeds(counters: TotalCounters, seeds: [u64; 4]) -> TinyLFU {
+        let mut tiny_lfu = TinyLFU::new(counters);
+        tiny_lfu.key_access_frequency = FrequencyCounter::verif_with_seeds(counters, seeds);
+        tiny_lfu
+    }
+}
+
 #[cfg(test)]
 mod tests {
     use crate::cache::lfu::tiny_lfu::TinyLFU;
